@@ -586,3 +586,81 @@ func runNoParamWrite(rr *RuleRun) {
 		rr.Violation(key, fn.Pos(), bad+": the caller's argument is modified as a side effect, so what the caller (or a later stage using the same slice) sees afterwards is no longer what was passed in")
 	}
 }
+
+// ---------------------------------------------------------------------------
+// C04.rebuild-keeps-marks
+
+func init() {
+	register(&Rule{
+		ID: "C04.rebuild-keeps-marks", Prop: "C04", Also: []string{"C08"}, Floor: 4, Controls: 1,
+		Doc: "in package convert, a value that is replaced by a fresh null or unknown built from its own type (v = cty.NullVal(v.Type()…)) keeps its marks: the replacement is wrapped in WithSameMarks(v) / WithMarks, or v is established unmarked — a type carries no marks, so rebuilding from it alone drops them",
+		Run: runRebuildKeepsMarks,
+	})
+}
+
+func runRebuildKeepsMarks(rr *RuleRun) {
+	c := rr.Ctx
+	pkg := "cty/convert"
+	eachFuncBody(c, []string{pkg}, func(_ string, fd *ast.FuncDecl, body *ast.BlockStmt) {
+		info := c.Info(pkg)
+		var facts *WorldResult
+		inspectNoLit(body, func(n ast.Node) bool {
+			as, ok := n.(*ast.AssignStmt)
+			if !ok || len(as.Lhs) != 1 || len(as.Rhs) != 1 {
+				return true
+			}
+			v := objOf(info, as.Lhs[0])
+			if v == nil || !isCtyValue(v.Type()) {
+				return true
+			}
+			// RHS contains NullVal/UnknownVal(... v.Type() ...)
+			rebuilt := false
+			ast.Inspect(as.Rhs[0], func(m ast.Node) bool {
+				call, ok := m.(*ast.CallExpr)
+				if !ok || !isCall(info, call, "cty.NullVal", "cty.UnknownVal") || len(call.Args) != 1 {
+					return true
+				}
+				ast.Inspect(call.Args[0], func(k ast.Node) bool {
+					if tc, ok := k.(*ast.CallExpr); ok && isCall(info, tc, "cty.Value.Type") {
+						if se, ok := tc.Fun.(*ast.SelectorExpr); ok && objOf(info, se.X) == v {
+							rebuilt = true
+						}
+					}
+					return true
+				})
+				return true
+			})
+			if !rebuilt {
+				return true
+			}
+			key := fmt.Sprintf("%s.%s/%s = %s", pkg, declName(fd), v.Name(), trunc(exprStr(as.Rhs[0]), 40))
+			if c.IsControl(as.Pos()) {
+				key = "control/" + key
+			}
+			// wrapped?
+			if call, ok := ast.Unparen(as.Rhs[0]).(*ast.CallExpr); ok {
+				switch funcKey(callee(info, call)) {
+				case "cty.Value.WithSameMarks":
+					for _, a := range call.Args {
+						if objOf(info, a) == v {
+							rr.OK(key, as.Pos(), "the replacement is wrapped in WithSameMarks("+v.Name()+")")
+							return true
+						}
+					}
+				case "cty.Value.WithMarks":
+					rr.OK(key, as.Pos(), "the replacement is wrapped in WithMarks(...)")
+					return true
+				}
+			}
+			if facts == nil {
+				facts = c.CFG(body, info).WorldsFocusedDims(valueFacts(info, body), []Fact{{"unmarked", objKey(v)}}, nil, []string{objKey(v)}, []string{"M", "DM"})
+			}
+			if h, reach := facts.Established(as, Fact{"unmarked", objKey(v)}); h || !reach {
+				rr.OK(key, as.Pos(), v.Name()+" is established unmarked here")
+				return true
+			}
+			rr.Violation(key, as.Pos(), fmt.Sprintf("%s is replaced by a value built from its type alone; if %s was marked (a marked null element, for example) its marks are dropped from the conversion result", v.Name(), v.Name()))
+			return true
+		})
+	})
+}
